@@ -138,3 +138,8 @@ prop("C08", ["DivanModel.Props.C08"], BENCH_LABS,
      level_text="Theorems on a transition system with any number of threads, every interleaving and panics in any work phase: in every reachable state, while a thread is in its timed section all threads have finished generating and clearing and none has started dropping; with the repair (an unwinding thread keeps its barrier appointments) every non-final reachable state has a successor (no hang); a step of one thread changes no other thread. The bench lab runs T in 2..4 threads with scripted panics at (thread, call) points, a watchdog for hangs, per-thread allocation figures and the overlap conditions evaluated on the global event order.",
      level_note="Trusted: Lean kernel; bench lab; std::sync::Barrier semantics (release wait k only when all arrived) are the model's assumption; interleavings are those the OS scheduler produced (the theorem covers all, the lab samples).",
      trusted=BENCH_TRUST)
+
+prop("C20", ["DivanModel.Props.C20"], [lab("paint", 800, 20000), lab("reg", 1000, 30000)],
+     level_text="Exact model of tree_painter.rs (prefix, depth, growing column widths, separators and trailing-space rule, all row kinds) compared byte for byte with the real TreePainter on random operation sequences with every combination of counter / max-alloc / tally rows, non-ASCII and over-long names (paint lab), and with the real front end's output for random programs under list/test (exact text) and bench (cells replaced by class tokens) in the registry lab. Theorems: the prefix invariant (three columns per open non-top-level parent, restored by finish_parent, a bar exactly when the opened parent has later siblings, leaves never touch it); painting a tree by the run_tree walk emits exactly one line per node in depth-first order with the glyphs of its true position (each_node_once); the depth-annotated preorder of any forest parses back to it (parse_render).",
+     level_note="Trusted: Lean kernel; labs. The serialised cells are produced by the lab from the real formatting functions (C18) and handed to the model; the character-level decoding of a line (glyphs -> depth) and the splitting of a row on ' | ' are not yet theorems (names must be 'clean': no box glyphs / double spaces). F9: under --list a benchmark with args is printed without its argument cases (recorded finding).",
+     trusted=REG_TRUST)
